@@ -263,6 +263,54 @@ theorem C05_unlisted_admitted (env : Env) (rf : Form → GS → Res → Option (
   · rfl
   · simp [apply]
 
+/-- The instructions of a program that belong to the property's list. -/
+def listed (is : List Instr) : List Instr := is.filter (fun i => match i.op with | .other _ => false | _ => true)
+
+/-- **Frame theorem at program level** (text model): deleting every operator outside the property's
+list — all vector graphics, clipping, marked content, general graphics state — from a program the
+text model gives a meaning to leaves the meaning (final state and glyphs) as it is. -/
+theorem C05_unlisted_erase (env : Env) (rf : Form → GS → Res → Option (List Glyph)) (is : List Instr) :
+    ∀ (s s' : SState) (gl : List Glyph), runInstrs env rf s is = some (s', gl) →
+      runInstrs env rf s (listed is) = some (s', gl) := by
+  induction is with
+  | nil => intro s s' gl h; simpa [listed] using h
+  | cons i rest ih =>
+    intro s s' gl h
+    simp only [runInstrs] at h
+    split at h
+    · simp at h
+    · rename_i s1 g1 h1
+      split at h
+      · simp at h
+      · rename_i s2 g2 h2
+        simp only [Option.some.injEq, Prod.mk.injEq] at h
+        obtain ⟨rfl, rfl⟩ := h
+        have ih' := ih s1 s2 g2 h2
+        obtain ⟨op, args⟩ := i
+        cases op
+        case other n =>
+          obtain ⟨rfl, rfl⟩ := C05_unlisted_spec env rf s s1 n args g1 h1
+          simpa [listed] using ih'
+        all_goals
+          have ih'' : runInstrs env rf s1
+              (List.filter (fun i => match i.op with | .other _ => false | _ => true) rest) = some (s2, g2) := ih'
+          simp only [listed, List.filter_cons, ↓reduceIte, runInstrs, h1, ih'']
+
+/-- … hence for whole pages, and with `C05_program` for pdfminer: the glyphs the interpreter reports
+for a page that mixes text with such operators are the glyphs the text model assigns to the page
+*without* them. -/
+theorem C05_unlisted_erase_page (env : Env) (fuel : Nat) (ctm : Matrix) (res : Res) (streams : List (List Tok))
+    (is : List Instr) (trail : List Obj) (gl : List Glyph) (hparse : parseInstrs streams.flatten [] = (is, trail))
+    (h : TextModel.runPage env fuel ctm res is = some gl) :
+    TextModel.runPage env fuel ctm res (listed is) = some gl ∧ (Interp.runPage env fuel ctm res streams).2 = gl := by
+  refine ⟨?_, (C05_program env fuel ctm res streams is trail gl hparse h).1⟩
+  unfold TextModel.runPage runStream at h ⊢
+  split at h
+  · simp at h
+  · rename_i s' gl' hrun
+    rw [C05_unlisted_erase env _ is _ s' gl' hrun]
+    exact h
+
 /-! ## The rules of 9.3–9.4, stated on the interpreter alone -/
 
 /-- Showing one string, horizontal writing: the pen moves by `tx = (w0·Tfs + Tc + Tw?)·Th` per
@@ -576,7 +624,8 @@ example : (TextModel.runPage exEnv 3 MATRIX_IDENTITY exRes exMixed).map (fun l =
     = some [(5, 6)] ∧
     TextModel.runPage exEnv 3 MATRIX_IDENTITY exRes exMixed =
       TextModel.runPage exEnv 3 MATRIX_IDENTITY exRes
-        (exMixed.filter (fun i => match i.op with | .other _ => false | _ => true)) := by decide +kernel
+        (listed exMixed) ∧
+    (listed exMixed).length = 7 ∧ exMixed.length = 25 := by decide +kernel
 
 /-- … and the interpreter reports the same glyph (`C05_program` instantiated). -/
 example : (Interp.runPage exEnv 3 MATRIX_IDENTITY exRes [exMixed.flatMap Instr.toks]).2.map (fun g => (g.m.2.2.2.2.1, g.m.2.2.2.2.2))
